@@ -4,7 +4,7 @@ use chalk_ir::{
     interner::Interner,
     visit::TypeVisitor,
     visit::{TypeSuperVisitable, TypeVisitable},
-    AliasTy, DebruijnIndex, TyKind, WhereClause,
+    AliasTy, DebruijnIndex, DomainGoal, FromEnv, TyKind, WellFormed, WhereClause,
 };
 use std::ops::ControlFlow;
 
@@ -158,6 +158,23 @@ impl<'i, I: Interner, DB: RustIrDatabase<I>> TypeVisitor<I> for IdCollector<'i, 
             _ => {}
         }
         ty.super_visit_with(self, outer_binder)
+    }
+
+    fn visit_domain_goal(
+        &mut self,
+        domain_goal: &DomainGoal<I>,
+        outer_binder: DebruijnIndex,
+    ) -> ControlFlow<()> {
+        // Hypotheses reach the database as `FromEnv` goals in the environment
+        // (`if (T: Child) { .. }`): the trait they mention must be declared too.
+        match domain_goal {
+            DomainGoal::FromEnv(FromEnv::Trait(trait_ref))
+            | DomainGoal::WellFormed(WellFormed::Trait(trait_ref))
+            | DomainGoal::LocalImplAllowed(trait_ref) => self.record(trait_ref.trait_id),
+            DomainGoal::Normalize(normalize) => self.visit_alias(&normalize.alias),
+            _ => (),
+        }
+        domain_goal.super_visit_with(self.as_dyn(), outer_binder)
     }
 
     fn visit_where_clause(
